@@ -5,6 +5,7 @@
 //!
 //! usage: harness <property> <outdir> <seed> <tier: quick|thorough>
 #![allow(clippy::all)]
+#![recursion_limit = "1024"]
 use std::collections::{BTreeMap, HashSet};
 use std::fs::File;
 use std::io::{BufWriter, Write};
